@@ -3856,6 +3856,43 @@ def rename_params(toks, names, fired):
     return toks
 
 
+def auto_unprefix_params(toks, sections, fired):
+    """a parameter that the source (now) spells `_x` while the annotations of the unit speak of `x` (and never of `_x`) is
+    alpha-renamed to `x`: marking a parameter as unused is not a change of behaviour, and the contract must keep applying
+    (an edit that stops USING a parameter is then judged by the verifier instead of ending as a compile error).  Nothing
+    happens on a tree where the names agree."""
+    try:
+        k = next(i for i, t in enumerate(toks) if t.kind == "ident" and t.text == "fn")
+        p = k
+        while toks[p].text != "(":
+            if toks[p].text == "<":
+                p = match_angle(toks, p)
+            p += 1
+        pe = match_close(toks, p)
+    except Exception:
+        return toks
+    ann = "\n".join(v for v in sections.values() if isinstance(v, str))
+    ann_ids = set(re.findall(r"[^\W\d]\w*", ann, re.UNICODE))
+    allids = {t.text for t in toks if t.kind == "ident"}
+    ren = {}
+    for (a, b) in split_top_commas(toks, p + 1, pe):
+        seg = [t for t in toks[a:b] if t.kind not in ("ws", "comment")]
+        if not seg or "self" in [t.text for t in seg[:3]]:
+            continue
+        nm = seg[1] if seg[0].text == "mut" and len(seg) > 1 else seg[0]
+        if nm.kind != "ident" or not nm.text.startswith("_") or len(nm.text) < 2:
+            continue
+        bare = nm.text[1:]
+        if bare in ann_ids and nm.text not in ann_ids and bare not in allids:
+            ren[nm.text] = bare
+    if ren:
+        for t in toks:
+            if t.kind == "ident" and t.text in ren:
+                t.text = ren[t.text]
+        fired["params_unprefixed"] = len(ren)
+    return toks
+
+
 def strip_sentinels(text):
     out, i = [], 0
     while True:
@@ -4072,6 +4109,8 @@ def render_item(unit, kind, opts, sections):
         item = apply_rules(item, ["R12"] + rules, fired)
         if opts.get("params"):
             item = rename_params(item, [x for x in opts["params"].split(",")], fired)
+        else:
+            item = auto_unprefix_params(item, sections, fired)
         ruled = [Tok(t.kind, t.text, t.pos, t.syn) for t in item]
         merged = merge_fn(item, opts, sections, fired)
         emitted = untok(merged)
